@@ -225,6 +225,13 @@ def r2_skip_sets(ctx: Ctx) -> None:
         cm = [glo_.node_containing(c) for c in calls_in(lop.node) if call_name(c) == "s.accept_run" and "\n" in (const_str(c.args[0]) or "")
               and any(k.arg == "negate" and getattr(k.value, "value", False) for k in c.keywords)]
         semi = [nid for nid, nd in glo_.nodes.items() if nd.kind == "test" and unparse(nd.ast) == "s.accept(';')"]
+        if semi and not cm:
+            # the `;` arm skips through a helper the analysis has no summary of (a scanner method that was not folded back): not decided
+            on_arm = glo_.reachable([m for m, l in glo_.succ[semi[0]] if l == "T"], blocked=eol)
+            opaque = [call_name(c) for c in calls_in(lop.node) if glo_.node_containing(c) in on_arm and (call_name(c) or "").startswith("s.")
+                      and (call_name(c) or "") not in ("s.accept_run", "s.accept", "s.peek", "s.next", "s.emit", "s.ignore", "s.ignore_run", "s.backup", "s.accept_prefix")]
+            if opaque:
+                raise AnalysisError(f"lex_opcode: the comment is skipped by `{opaque[0]}`, a scanner helper without a summary; not decided")
         ok_c = bool(cm) and bool(semi) and all(glo_.dominated_by_edge(c_, (semi[0], "T")) for c_ in cm) and all(e not in glo_.reachable([m for m, l in glo_.succ[semi[0]] if l == "T"], blocked=cm) for e in eol)
         ctx.check(ok_c, "lex_opcode:lookahead-skips-comment", "a `;` comment after the mnemonic is skipped up to the end of the line before that end is tested (`inc ; x` == `inc`)")
         emits_lo = [glo_.node_containing(c) for c in calls_in(lop.node) if call_name(c) == "s.emit"]
